@@ -149,6 +149,11 @@ def key_of(line):
     return hashlib.blake2b(line.encode(), digest_size=8).hexdigest()
 
 
+def _h(name):
+    import zlib
+    return zlib.crc32(str(name).encode())
+
+
 def make_cases(name, g, tags):
     """the first completion and the second one (idempotence on the implementation)"""
     cases = []
@@ -177,6 +182,27 @@ def make_cases(name, g, tags):
         cases.append(Case([Atom("C12"), Atom("addh"), enc_out],
                           enc_graph(out2) if isinstance(out2, nx.Graph) else out2,
                           meta={"name": name + " (second completion, full spec)"}, tags=["second-completion-spec"]))
+        # history on the same object: after the completion the SAME graph object is edited in place
+        # (a hydrogen is removed, or a heavy atom is attached / added) and completed again: the
+        # third completion must satisfy the full spec for the graph as it is then
+        if isinstance(out2, nx.Graph) and out2.number_of_nodes() > 0 and (_h(name) % 3 == 0 or "corpus" in tags):
+            g3 = out2
+            hs = [n for n, d in g3.nodes(data=True) if d.get("symbol") == "H" and g3.degree(n) == 1]
+            if hs and _h(name) % 2 == 0:
+                g3.remove_node(hs[-1])
+                edit = "removed-one-H"
+            else:
+                new = max(g3.nodes) + 1
+                g3.add_node(new, symbol="C")
+                heavy = [n for n, d in g3.nodes(data=True) if d.get("symbol") not in ("H", None) and n != new]
+                if heavy and _h(name) % 5 != 0:
+                    g3.add_edge(heavy[0], new, bond=1)
+                edit = "added-carbon"
+            req3 = [Atom("C12"), Atom("addh"), enc_graph(g3)]
+            out3 = call_impl(impl_addh, g3)
+            cases.append(Case(req3, enc_graph(out3) if isinstance(out3, nx.Graph) else out3,
+                              meta={"name": name + " (completion after an in-place edit: %s)" % edit},
+                              nontrivial_key=key_of(sx(req3)), tags=["completion-after-in-place-edit", edit]))
     return cases
 
 
